@@ -267,11 +267,13 @@ def filter_args(func, ignore_lst, args=(), kwargs=dict()):
         # include self, we need to fetch it from the class method, i.e
         # func.__func__
         class_method_sig = inspect.signature(func.__func__)
-        self_name = next(iter(class_method_sig.parameters))
-        arg_names = [self_name] + arg_names
-        # The instance is already bound: a keyword argument with the same
-        # name can only be meant for **kwargs.
-        arg_posonlyargs = [self_name] + arg_posonlyargs
+        self_param = next(iter(class_method_sig.parameters.values()))
+        if self_param.kind is not self_param.VAR_POSITIONAL:
+            arg_names = [self_param.name] + arg_names
+            # The instance is already bound: a keyword argument with the same
+            # name can only be meant for **kwargs.
+            arg_posonlyargs = [self_param.name] + arg_posonlyargs
+        # else: 'def method(*args)', the instance is the first item of *args
     # XXX: Maybe I need an inspect.isbuiltin to detect C-level methods, such
     # as on ndarrays.
 
